@@ -44,6 +44,38 @@ def translate():
     return p.returncode == 0, p.stdout
 
 
+def failed_gen_files(translate_out):
+    """the Gen modules left stale by failed translator steps (None = could not tell: treat every property as affected)"""
+    gens = []
+    for line in translate_out.splitlines():
+        if line.startswith("TRANSLATE-FAIL"):
+            m = re.search(r"gen=([\w,?]+)", line)
+            if not m or "?" in m.group(1):
+                return None
+            gens += ["Exetera.Gen." + g for g in m.group(1).split(",")]
+    return gens
+
+
+def lean_imports(modules):
+    """transitive `import Exetera.…` closure of the given modules (by reading the sources)"""
+    seen, todo = set(), list(modules)
+    while todo:
+        m = todo.pop()
+        if m in seen:
+            continue
+        seen.add(m)
+        f = LEAN / (m.replace(".", "/") + ".lean")
+        if not f.exists():
+            continue
+        for line in f.read_text().splitlines():
+            mm = re.match(r"\s*import\s+((?:Exetera|Driver)[\w.]*)", line)
+            if mm:
+                todo.append(mm.group(1))
+            elif line.strip() and not line.startswith(("import", "--", "/-")) and not line.startswith(" "):
+                break
+    return seen
+
+
 def lake_build(targets, timeout=3000):
     """lake build of the given targets. Returns (ok, log)."""
     with BuildLock():
